@@ -595,6 +595,8 @@ def drive_c20(item, rec):
             elif cl["fvak"] == "frame":
                 fva = pd.DataFrame({"minimum": [float(a) for a, b in cl["frame"]],
                                     "maximum": [float(b) for a, b in cl["frame"]]}, index=ids)
+                if cl.get("fsub"):      # rows for a subset of the reactions only
+                    fva = fva.loc[[ids[i] for i in range(n) if cl["fsub"][i]]]
             has_rng = fva is not None
             k = cl["k"]
             if cl["passpfba"]:
